@@ -108,7 +108,9 @@ func (p *polling) onPollRequest(ctx *types.HttpContext) {
 	p.Emit("ready")
 
 	// if we're still writable but had a pending close, trigger an empty send
-	if p.Writable() && p.shouldClose.Load() != nil {
+	// (or the transport closed while this poll was being installed: nothing
+	// else will ever answer it)
+	if p.Writable() && (p.shouldClose.Load() != nil || p.ReadyState() == "closed") {
 		polling_log.Debug("triggering empty send to append close packet")
 		p.Send([]*packet.Packet{
 			{
@@ -250,6 +252,14 @@ func (p *polling) OnClose() {
 		})
 	}
 	p.Transport.OnClose()
+	if p.Writable() {
+		// a poll installed between the test above and the state change
+		p.Send([]*packet.Packet{
+			{
+				Type: packet.NOOP,
+			},
+		})
+	}
 }
 
 // Writes a packet payload.
